@@ -171,6 +171,10 @@ func runEvictHistory(tr *Trace, run int, pol string, r *rand.Rand, length int, t
 	st0 := srv.DB.VerifDump()
 	tr.Emit(map[string]any{"ev": "reset", "run": run, "policy": pol, "max": limit, "now": srv.Now(),
 		"st": projState(srv.Ep, st0), "mem": st0.MemUsed, "preset": []any{}})
+	// a third of the histories spread their keys over two databases: one write over the limit then makes
+	// both databases look for victims
+	twoDbs := r.Intn(3) == 0
+	curDb := 0
 	keys := []string{"k1", "k2", "k3", "k4", "k5", "k6"}
 	vals := []string{"v", "vvvvvvvvvv", "vvvvvvvvvvvvvvvvvvvvvvvvvvvvvv"}
 	for i := 0; i < length; i++ {
@@ -206,10 +210,16 @@ func runEvictHistory(tr *Trace, run int, pol string, r *rand.Rand, length int, t
 		if r.Intn(8) == 0 {
 			srv.Clock.AdvanceMs(100)
 		}
+		if twoDbs && r.Intn(3) == 0 {
+			curDb = 1 - curDb
+			if err := srv.DB.SelectDB(curDb); err != nil {
+				die(2, "select: %v", err)
+			}
+		}
 		time.Sleep(3 * time.Millisecond) // recency stamps have millisecond resolution
 		rep := srv.Exec(cmd)
 		quietOK := rec.waitQuiet(5 * time.Second)
-		ev := map[string]any{"ev": "cmd", "run": run, "now": srv.Now(), "db": "0", "cmd": toksJSON(cmd), "r": rep.JSON(),
+		ev := map[string]any{"ev": "cmd", "run": run, "now": srv.Now(), "db": strconv.Itoa(curDb), "cmd": toksJSON(cmd), "r": rep.JSON(),
 			"evicts": rec.take(), "quiet": quietOK, "policy": pol, "max": limit}
 		if rep.T == "panic" || rep.T == "hang" || !quietOK {
 			ev["st"] = []any{}
